@@ -330,6 +330,60 @@ def c25_history(case, out):
     return None
 
 
+def c25_stack_history(case, out):
+    """Stacked ScheduledDisposable layers (layer 0 wraps the resource, layer k wraps layer k-1), every layer bound to its
+    own scheduler.  Reference: dispose(layer k) hands one action to scheduler k (an immediate scheduler runs it at once); the
+    action disposes layer k's content once: the resource for k = 0, else layer k-1 (which schedules on scheduler k-1).
+    Property: the resource is released exactly once, inside an action of scheduler 0 - the scheduler of the layer that
+    directly wraps it - and a layer reports is_disposed once one of ITS actions ran."""
+    kinds = case["layers"]
+    n = len(kinds)
+    queues = [0] * n      # pending actions per scheduler
+    fired = [False] * n   # layer k's inner holder disposed
+    released = 0
+
+    def action(k):
+        nonlocal released
+        if fired[k]:
+            return
+        fired[k] = True
+        if k == 0:
+            released += 1
+        else:
+            dispose(k - 1)
+
+    def dispose(k):
+        if kinds[k] == "immediate":
+            action(k)
+        else:
+            queues[k] += 1
+
+    def run(k):
+        if kinds[k] == "queue":
+            if queues[k]:
+                queues[k] -= 1
+                action(k)
+        elif kinds[k] == "test":
+            while queues[k]:
+                queues[k] -= 1
+                action(k)
+
+    for m, (op, (res, obs)) in enumerate(zip(case["threads"][0], out)):
+        if op[0] == "dispose":
+            dispose(op[1])
+        else:
+            run(op[1])
+        for on in obs["released_on"]:
+            if on != 0:
+                where = "inline on the caller" if on is None else f"inside an action of scheduler {on}"
+                return f"after call {m} {op}: the resource was released {where}, not on scheduler 0 (the scheduler of the layer that wraps it)"
+        if obs["cnt"][0] != released:
+            return f"after call {m} {op}: resource released {obs['cnt'][0]}x, expected {released}"
+        if obs["is_disposed"] != fired:
+            return f"after call {m} {op}: is_disposed per layer {obs['is_disposed']}, expected {fired} (a layer is disposed once one of its own actions ran)"
+    return None
+
+
 def c25_threads(case, trace, final):
     cls = case["cls"]
     nthreads = len(case["threads"])
